@@ -280,12 +280,23 @@ def all_paths(tier):
     return out
 
 
-def check_path(pname, acc, only=None):
+def check_path(pname, acc, only=None, scale=1.0):
     if pname in RAW:
         segs, close = RAW[pname][0](), ('setter' if RAW[pname][1] == 'closed_by_setter' else None)
     else:
         names, close = all_paths('thorough')[pname]
         segs = chain(names, close)
+        if scale != 1.0:
+            # the same drawing at another scale (joints made exact again after the multiplication)
+            segs = [AB.rescaled_segment(s_, scale) for s_ in segs]
+            for i_ in range(1, len(segs)):
+                if isinstance(segs[i_], Arc):
+                    segs[i_] = Arc(segs[i_ - 1].end, segs[i_].radius, segs[i_].rotation, segs[i_].large_arc, segs[i_].sweep, segs[i_].end)
+                else:
+                    segs[i_].start = segs[i_ - 1].end
+            if close is not None:
+                segs[-1].end = segs[0].start
+            acc.seen('drawing_scale:%g' % scale)
     p = segs if isinstance(segs, Path) else AB.derive_path(Path(*segs))
     segs = list(p)
     size = max(seg_size(s) for s in segs) * len(segs)
@@ -293,6 +304,8 @@ def check_path(pname, acc, only=None):
     tol = (1e-7 if has_arc else 1e-9) * size
     closed = close is not None
     base = {'what': 'path', 'path': pname}
+    if scale != 1.0:
+        base['scale'] = scale
     sig0 = {'closed': closed, 'has_arc': has_arc}
     if pname in RAW:
         sig0[RAW[pname][1]] = True
@@ -381,6 +394,8 @@ def shards(tier, seed):
            for r in (ROTS + [90] if tier == 'quick' else ROTS + [90, 211, 180]) for sc in ([1.0, 1e-3] if tier == 'quick' else [1.0, 1e-3, 1e3, 1e6])]
     out += [{'what': 'path', 'path': n} for n in list(all_paths(tier)) + list(RAW)]
     out += [{'what': 'int_segment', 'shape': n} for n in INT_SEGMENTS]
+    # the named paths as tiny / huge drawings
+    out += [{'what': 'path', 'path': n, 'scale': sc} for n in PATHS for sc in (1e-12, 1e-9, 1e9)]
     out += AB.provenance_shards(out, tier, lambda d: d['what'] == 'path' and d['path'] not in RAW, key='pprov')
     out += AB.provenance_shards(out, tier, lambda d: d['what'] == 'segment' and d.get('scale', 1.0) == 1.0 or (d['what'] == 'sequence' and d['rot'] == 0 and tier == 'quick'))
     # arcs with the documented module switch USE_SCIPY_QUAD off, and arcs constructed with autoscale_radius=False
@@ -402,7 +417,7 @@ def run_shard(desc, tier, seed):
     elif desc['what'] == 'sequence':
         check_sequences(desc['shape'], desc['rot'], desc['depth'], acc)
     else:
-        check_path(desc['path'], acc)
+        check_path(desc['path'], acc, scale=desc.get('scale', 1.0))
     return acc
 
 
@@ -434,7 +449,7 @@ def replay(case):
         keys = [k for k in ('t', 't0', 't1') if k in case]
         acc.vlist = [v for v in acc.vlist if all(v['case'].get(k) == case[k] for k in keys)]
     else:
-        check_path(case['path'], acc, only=case['op'])
+        check_path(case['path'], acc, only=case['op'], scale=case.get('scale', 1.0))
         keys = [k for k in ('T0', 'T1', 'T') if k in case]
         acc.vlist = [v for v in acc.vlist if all(v['case'].get(k) == case[k] for k in keys)]
     return acc.vlist
